@@ -23,6 +23,7 @@ structure DcGoodLine (l : Bytes) (n : Nat) : Prop where
 /-- `t` is what follows the last-chunk line `l` up to and including the first empty line -/
 structure DcTrailerEnd (l t : Bytes) : Prop where
   nonempty : t ≠ []
+  noNul : (l ++ t).contains 0 = false
   ends : endsCrlfCrlf (l ++ t) = true
   first : ∀ q r, t = q ++ r → r ≠ [] → q ≠ [] → endsCrlfCrlf (l ++ q) = false
 
@@ -98,23 +99,23 @@ theorem dcFeed_chunk {l d : Bytes} (h : DcGoodLine l d.length) (hd : d ≠ []) (
 
 /-- the trailer section is consumed up to its first empty line -/
 theorem dcFeed_trailer (out : Bytes) : ∀ (t acc : Bytes), t ≠ [] →
-    endsCrlfCrlf (acc ++ t) = true →
+    (acc ++ t).contains 0 = false → endsCrlfCrlf (acc ++ t) = true →
     (∀ q r, t = q ++ r → r ≠ [] → q ≠ [] → endsCrlfCrlf (acc ++ q) = false) →
     dcFeed { mode := .trailer acc, out := out } t = { mode := .done (acc ++ t), out := out } := by
   intro t
   induction t with
   | nil => intro acc h; exact absurd rfl h
   | cons b rest ih =>
-    intro acc _ hend hfirst
+    intro acc _ hnul hend hfirst
     rw [dcFeed_cons]
     cases rest with
-    | nil => simp [dcStep, dcFeed_nil, hend]
+    | nil => simp [dcStep, dcFeed_nil, hend, hnul]
     | cons c rest' =>
       have hq : endsCrlfCrlf (acc ++ [b]) = false := hfirst [b] (c :: rest') rfl (by simp) (by simp)
       have hstep : dcStep { mode := .trailer acc, out := out } b
           = { mode := .trailer (acc ++ [b]), out := out } := by
         simp [dcStep, hq]
-      rw [hstep, ih (acc ++ [b]) (by simp) (by simpa using hend)]
+      rw [hstep, ih (acc ++ [b]) (by simp) (by simpa using hnul) (by simpa using hend)]
       · simp
       · intro q r hqr hr _
         have := hfirst (b :: q) r (by simp [hqr]) hr (by simp)
@@ -123,7 +124,7 @@ theorem dcFeed_trailer (out : Bytes) : ∀ (t acc : Bytes), t ≠ [] →
 theorem dcFeed_final {l t : Bytes} (hl : DcGoodLine l 0) (ht : DcTrailerEnd l t) (out : Bytes) :
     dcFeed { mode := .hdr [], out := out } (l ++ t) = { mode := .done (l ++ t), out := out } := by
   rw [dcFeed_append, dcFeed_lastline hl]
-  exact dcFeed_trailer out t l ht.nonempty ht.ends ht.first
+  exact dcFeed_trailer out t l ht.nonempty ht.noNul ht.ends ht.first
 
 theorem dcFeed_err (bs : Bytes) (out : Bytes) : dcFeed { mode := .err, out := out } bs = { mode := .err, out := out } := by
   induction bs with
